@@ -10,6 +10,10 @@ def run(ctx):
     # random deeper programs over every operator, builtin and value kind, recorded from the real evaluator and validated by Trace_Expr
     tr = ctx.record("prog-random", "expr", ["-mode", "prog", "-n", 40000 if ctx.thorough else 3000, "-seed", ctx.seed * 100 + 7])
     ctx.validate("prog-random-validate", "trace/Trace_Expr.tla", "trace/Trace_Expr.cfg", tr, "expr", shards=14 if ctx.thorough else 2)
+    # per-node trace validation: every evaluated node of random programs judged locally (evaluation order, selected branch only,
+    # operator cells, member access, calls) given its children's observed results
+    nd = ctx.record("nodes-random", "nodes", ["-n", 6000 if ctx.thorough else 600, "-seed", ctx.seed * 100 + 57])
+    ctx.validate("nodes-random-validate", "trace/Trace_Nodes.tla", "trace/Trace_Nodes.cfg", nd, "nodes", shards=1)
     return ctx.finish(
         rule="every formula of the family x 2 data maps evaluated by the real evaluator; compared: value, error, host-call log, "
              "data map afterwards; deep snapshot of the caller's data before/after; plus seeded random programs (depth <= 4, all operators / builtins / value kinds) validated by the trace specification; non-trivial = pinned cases",
